@@ -797,16 +797,16 @@ class Session:
         return (self.sim.snapshot(),
                 (set(a.conn), {t: list(v) for t, v in a.task.items()},
                  a.next_mailbox, dict(a.by_mailbox)),
-                len(self.path), dict(self.value_owner), self.oracles_on,
+                list(self.path), dict(self.value_owner), self.oracles_on,
                 dict(self.runner.tid_index))
 
     def restore(self, snap):
-        simsnap, (conn, task, nm, bm), plen, vo, on, ti = snap
+        simsnap, (conn, task, nm, bm), path, vo, on, ti = snap
         self.sim.restore(simsnap)
         a = self.auto
         a.conn, a.task = set(conn), {t: list(v) for t, v in task.items()}
         a.next_mailbox, a.by_mailbox = nm, dict(bm)
-        del self.path[plen:]
+        self.path[:] = path
         self.value_owner = dict(vo)
         self.oracles_on = on
         self.runner.tid_index = dict(ti)
@@ -914,6 +914,58 @@ def explore(sess: Session, evs, depth, seen=None):
         sess.restore(snap)
 
 
+def explore_states(sess: Session, evs, depth):
+    """Breadth-first over the reachable (server state, automaton state)
+    pairs: every event is tried once in every distinct state reached by a
+    well-formed history of length < depth.  Handlers are functions of the
+    state, so this checks every step of every history of length <= depth."""
+    def key():
+        return sess.records[-1]['state'] + '|' + repr(sorted(
+            (t, v[:4]) for t, v in sess.auto.task.items())) + repr(
+            sorted(sess.auto.conn))
+    sess.ctl('save')
+    nsaved = 1
+    frontier = [(sess.snapshot(), 0)]
+    seen = set()
+    for d in range(depth):
+        nxt = []
+        for snap, idx in frontier:
+            for ev in evs:
+                sess.restore(snap)
+                if not sess.auto.wf(ev):
+                    continue
+                sess.ctl(f'load {idx}')
+                alive = sess.event(ev)
+                if alive and d + 1 < depth:
+                    k = key()
+                    if k not in seen:
+                        seen.add(k)
+                        sess.ctl('save')
+                        nxt.append((sess.snapshot(), nsaved))
+                        nsaved += 1
+        sess.stats[f'states_at_depth_{d + 1}'] = len(nxt)
+        frontier = nxt
+        if not frontier:
+            break
+    sess.stats['distinct_states'] = len(seen)
+
+
+def chunk_states(args):
+    """Pool worker: state-space exploration below one first event."""
+    first, depth, nclients, ntids, nmail = args
+    _quiet()
+    sess = Session(strict_errors=True)
+    sess.ctl('reset')
+    for c in range(nclients):
+        sess.event(f'connect {c}')
+    evs = alphabet(nclients, ntids, nmail)
+    if first is None or (sess.auto.wf(first) and sess.event(first)):
+        explore_states(sess, evs, depth - (0 if first is None else 1))
+    sess.compare()
+    return (dict(sess.stats),
+            [(f.sig, f.what, f.replay, f.found) for f in sess.findings[:50]])
+
+
 def _quiet():
     logging.disable(logging.CRITICAL)
     import bqskit.runtime.detached as det
@@ -955,7 +1007,7 @@ def chunk_random(args):
     findings = []
     sess = None
     for h in range(count):
-        if sess is None or h % 50 == 0:
+        if sess is None:
             if sess is not None:
                 sess.compare()
                 stats.update(sess.stats)
@@ -1716,10 +1768,15 @@ def run(ck: Check):
             for f in replay_history(hist):
                 ck.violation(f.sig, f.what, f.replay, f.found)
         return
+    import time as _time
+    phases = {}
+    t0 = _time.time()
     drift = check_attr_lists()
     if drift:
         ck.coverage['constructor_attribute_drift'] = drift
     proved = ck.lean_obligations()
+    phases['lean'] = round(_time.time() - t0, 1)
+    t0 = _time.time()
     _quiet()
     ncpu = min(16, os.cpu_count() or 1)
     all_findings: list[tuple] = []
@@ -1731,17 +1788,21 @@ def run(ck: Check):
             all_findings.extend(fs)
 
     evs = alphabet(2, 2, 2)
-    depth = 6 if thorough else 5
+    depth = 6 if thorough else 4
     if thorough:
         jobs = [([a, b, c], depth, False, True)
                 for a in FIRST for b in evs for c in evs]
     else:
-        jobs = [([a, b], depth, False, True) for a in FIRST for b in evs]
+        jobs = [([a], depth, False, True) for a in FIRST]
     ck.rng.shuffle(jobs)
-    # deeper, up to equality of the reached state (thorough tier only)
-    ddepth = 10 if thorough else 0
-    djobs = ([([a, b], ddepth, True, True) for a in FIRST for b in evs]
-             if thorough else [])
+    # state-space exploration: (first event | None, depth, clients, tids,
+    # mailboxes); 2x2x2 saturates at depth 10 (1 244 states): complete
+    if thorough:
+        djobs = [(None, 14, 2, 2, 2), (None, 14, 3, 2, 2)]
+        djobs += [(f, 8, 2, 3, 3) for f in alphabet(2, 3, 3)]
+        djobs += [(f, 6, 3, 3, 3) for f in alphabet(3, 3, 3)]
+    else:
+        djobs = [(None, 14, 2, 2, 2), (None, 6, 3, 2, 2)]
     nrand = 100000 if thorough else 5000
     per = 250
     rjobs = [(ck.rng.randrange(1 << 30), per, 30, False, True)
@@ -1760,7 +1821,7 @@ def run(ck: Check):
     bjobs = [bub[i::ncpu] for i in range(ncpu)]
     with mp.Pool(ncpu) as pool:
         r1 = pool.map_async(chunk_exhaustive, jobs, chunksize=1)
-        r2 = pool.map_async(chunk_exhaustive, djobs, chunksize=1)
+        r2 = pool.map_async(chunk_states, djobs, chunksize=1)
         r3 = pool.map_async(chunk_random, rjobs, chunksize=1)
         r4 = pool.map_async(chunk_random, mjobs, chunksize=1)
         r5 = pool.map_async(chunk_bubbling, bjobs, chunksize=1)
@@ -1781,6 +1842,8 @@ def run(ck: Check):
                           if k.startswith('ev:')})
             all_findings.extend(f for f in fs if not f[3])
         bres = [x for chunk in r5.get() for x in chunk]
+    phases['histories'] = round(_time.time() - t0, 1)
+    t0 = _time.time()
     ck._distinct.extra += n_tree
     ck.coverage['evaluations'] += n_tree + n_dedup + n_rand + n_mal
     ck.coverage['traces_validated_against_impl'] += (
@@ -1790,9 +1853,14 @@ def run(ck: Check):
         f'all well-formed histories of length <= {depth} over 2 clients x 2 '
         f'task ids x {{submit, request, status, cancel, disconnect}} x '
         f'{{result, error, log}} for 2 mailboxes, first event canonical up '
-        f'to client/task renaming ({n_tree} history-tree nodes)' + (
-            f'; plus all histories of length <= {ddepth} up to equality of '
-            f'the reached server state ({n_dedup} nodes)' if ddepth else ''))
+        f'to client/task renaming ({n_tree} history-tree nodes); plus the '
+        'COMPLETE reachable state space over that alphabet (it saturates at '
+        f'depth 10, {dd[0][0].get("distinct_states")} states: every event in '
+        'every state reachable by a well-formed history of any length) and '
+        'breadth-first state exploration for larger alphabets: '
+        + '; '.join(sorted({f'{j[2]} clients x {j[3]} ids x {j[4]} mailboxes '
+                            f'to depth {j[1]}' for j in djobs[1:]}))
+        + f' ({n_dedup} events in all)')
     ck.coverage['random_histories'] = nrand
     ck.coverage['events_by_kind'] = {
         k[3:]: v for k, v in stats.items() if k.startswith('ev:')}
@@ -1865,6 +1933,8 @@ def run(ck: Check):
     ck.coverage['attached_events'] = astats['attached_events']
     ck.coverage['evaluations'] += astats['attached_events']
 
+    phases['bubbling_client_attached'] = round(_time.time() - t0, 1)
+    ck.coverage['phase_seconds'] = phases
     # ---- verdicts
     seen = set()
     for sig, what, replay, found in all_findings:
